@@ -8,7 +8,7 @@ ID = "C14"
 PROPS_FILE = "theories/Props/C14.v"
 EXTRACT = ("theories/Extract/XC14.v", "c14",
            ["entry_mec_ok", "entry_chrystal_many", "entry_sweep_many", "entry_feret_max", "entry_feret_min_ok", "entry_feret_lower_ok",
-            "entry_fill_model", "entry_fill_check", "entry_fill_hyp", "entry_chrystal_hyp_many"])
+            "entry_fill_model", "entry_fill_check", "entry_fill_hyp", "entry_chrystal_hyp_many", "entry_chrystal_vec"])
 PYX = {}
 RULE = ("ROUND 2 additions: 40 % of the cases as dtype/layout variants (label image int8..int64, uint8..uint64; C, Fortran, "
         "strided view, read-only; index list as list, tuple or array of any integer dtype; hull array int16/int32/int64 in "
@@ -609,8 +609,10 @@ def model(ctx, cases, outs):
     # brute force on the same vertex lists, next to the sweep: a disagreement refutes calipers = brute force
     flat = [h for hs in hulls for h in hs if len(h) >= 1]
     bf = iter(ctx.run_model("entry_feret_max", flat)) if flat else iter([])
-    for k, r, w, f, hs in zip(ok, ch, sw, fl, hulls):
-        res[k] = {"mec": r, "sweep": w, "fill": f, "bf_max": [next(bf) if len(h) >= 1 else 0 for h in hs]}
+    # the vectorised bookkeeping model (global arrays, all objects of the call together)
+    vec = ctx.run_model("entry_chrystal_vec", [[cases[k]["indexes"], hs] for k, hs in zip(ok, hulls)])
+    for k, r, w, f, hs, v in zip(ok, ch, sw, fl, hulls, vec):
+        res[k] = {"mec": r, "mec_vec": v, "sweep": w, "fill": f, "bf_max": [next(bf) if len(h) >= 1 else 0 for h in hs]}
     return res
 
 
@@ -628,6 +630,8 @@ def compare(case, out, m):
     mec = out["mec"]
     if _exc(mec):
         return "minimum_enclosing_circle raised %s" % (mec,)
+    if m["mec_vec"] != m["mec"]:
+        return "vectorised bookkeeping model differs from the per-object model: %s vs %s" % (str(m["mec_vec"])[:200], str(m["mec"])[:200])
     for k, r in enumerate(m["mec"]):
         cy, cx, rad = mec["cy"][k], mec["cx"][k], mec["r"][k]
         if r[0] == 0:
